@@ -1,9 +1,97 @@
-import PySMT.Impl.Rewritings.NNF
-/-! C10 property theorems (under construction). -/
+import PySMT.Proofs.C10NNF
+import PySMT.Proofs.C10AIG
+import PySMT.Proofs.C10Partition
+import PySMT.Proofs.C10SelfSub
+import PySMT.Proofs.C10Times
+/-!
+# C10 — normal forms and Boolean quantifier elimination: property theorems (obligations)
+
+Models: `PySMT/Impl/Rewritings/*.lean` (one file per procedure of `pysmt/rewritings.py` /
+`pysmt/solvers/qelim.py`). Reference semantics: `eval` (`Core/Eval.lean`).
+
+Hypotheses (all decidable, satisfied by every formula a `FormulaManager` builds):
+* `t.wf` : well-typed with the constructors' arities (`Impl/WF.lean`);
+* `t.typeOf = some .bool` : a formula (the procedures that only make sense on formulas);
+* `I.WF` : every symbol / function value inhabits its sort, every quantification domain is
+  non-empty and well-sorted ("every interpretation");
+* `BoolExact I` : both truth values are in the Boolean quantification domain ("Boolean
+  quantifiers are evaluated exactly") — needed by the two QE procedures only;
+* `boolQuants t` : every binder binds Boolean variables (the fragment of the QE procedures;
+  otherwise `ShannonQuantifierEliminator` raises).
+-/
 namespace PySMT.C10
 open PySMT.Rewritings
 
-theorem nnf_atom_partial (s : Sym) : nnf (Term.sym s) = Term.sym s := by
-  simp [nnf, nnfP, Term.sym]
+/-! ## negation normal form -/
+
+/-- `nnf(t)` has the value of `t` under every interpretation -/
+theorem nnf_equiv (t : Term) (hwf : t.wf = true) (hty : t.typeOf = some .bool) (I : Interp) (hI : I.WF) :
+    eval I (nnf t) = eval I t := Rewritings.nnf_equiv t hwf hty I hI
+
+/-- negations only on atoms; only `and` / `or` / binders above the literals -/
+theorem nnf_shape (t : Term) (hwf : t.wf = true) : isNNF (nnf t) = true := Rewritings.nnf_shape t hwf
+
+/-- the result is again a well-formed formula -/
+theorem nnf_wf (t : Term) (hwf : t.wf = true) (hty : t.typeOf = some .bool) :
+    (nnf t).wf = true ∧ (nnf t).typeOf = some .bool := Rewritings.nnf_wf t hwf hty
+
+/-! ## and-inverter form -/
+
+theorem aig_equiv (t : Term) (hwf : t.wf = true) (hty : t.typeOf = some .bool) (I : Interp) (hI : I.WF) :
+    eval I (aig t) = eval I t := Rewritings.aig_equiv t hwf hty I hI
+
+/-- only `and` and `not` above the atoms (binders are kept) -/
+theorem aig_shape (t : Term) (hwf : t.wf = true) (hty : t.typeOf = some .bool) : isAIG (aig t) = true :=
+  Rewritings.aig_shape t ⟨hwf, hty⟩
+
+theorem aig_wf (t : Term) (hwf : t.wf = true) (hty : t.typeOf = some .bool) :
+    (aig t).wf = true ∧ (aig t).typeOf = some .bool := Rewritings.aig_wf t hwf hty
+
+/-! ## top-level partitions -/
+
+/-- `phi <-> And(conjunctive_partition(phi))` -/
+theorem partition_equiv (t : Term) (hwf : t.wf = true) (hty : t.typeOf = some .bool) (I : Interp) (hI : I.WF) :
+    eval I (mkAnd (conjPartition t)) = eval I t := conj_partition_equiv t hwf hty I hI
+
+/-- `phi <-> Or(disjunctive_partition(phi))` -/
+theorem partition_equiv_dual (t : Term) (hwf : t.wf = true) (hty : t.typeOf = some .bool) (I : Interp)
+    (hI : I.WF) : eval I (mkOr (disjPartition t)) = eval I t := disj_partition_equiv t hwf hty I hI
+
+/-- no element of the conjunctive partition is an `And`, none is yielded twice -/
+theorem partition_shape (t : Term) (hwf : t.wf = true) (hty : t.typeOf = some .bool) :
+    (∀ x ∈ conjPartition t, isAnd x = false) ∧ (conjPartition t).Nodup :=
+  ⟨conj_partition_no_and t hwf hty, dedup_nodup _⟩
+
+theorem partition_shape_dual (t : Term) (hwf : t.wf = true) (hty : t.typeOf = some .bool) :
+    (∀ x ∈ disjPartition t, isOr x = false) ∧ (disjPartition t).Nodup :=
+  ⟨disj_partition_no_or t hwf hty, dedup_nodup _⟩
+
+/-! ## Boolean quantifier elimination -/
+
+/-- Shannon expansion returns a formula (term) with the same value … -/
+theorem shannon_equiv (t : Term) (hwf : t.wf = true) (hbq : boolQuants t = true) (I : Interp) (hI : I.WF)
+    (hx : BoolExact I) : eval I (shannon t) = eval I t := (shannon_spec t hwf hbq).2.2 I hI hx
+
+/-- … without any quantifier, well-formed, of the same sort -/
+theorem shannon_qf (t : Term) (hwf : t.wf = true) (hbq : boolQuants t = true) :
+    (shannon t).isQF = true ∧ (shannon t).wf = true ∧ (shannon t).typeOf = t.typeOf :=
+  ⟨(shannon_spec t hwf hbq).2.1, (shannon_spec t hwf hbq).1⟩
+
+theorem selfSub_equiv (t : Term) (hwf : t.wf = true) (hbq : boolQuants t = true) (I : Interp) (hI : I.WF)
+    (hx : BoolExact I) : eval I (selfSub t) = eval I t := (selfSub_spec t hwf hbq).2.2 I hI hx
+
+theorem selfSub_qf (t : Term) (hwf : t.wf = true) (hbq : boolQuants t = true) :
+    (selfSub t).isQF = true ∧ (selfSub t).wf = true ∧ (selfSub t).typeOf = t.typeOf :=
+  ⟨(selfSub_spec t hwf hbq).2.1, (selfSub_spec t hwf hbq).1⟩
+
+/-! ## distribution of products over sums -/
+
+/-- `TimesDistributor(env).walk(t)` has the value of `t` (any term, any sort) … -/
+theorem times_equiv (t : Term) (hwf : t.wf = true) (I : Interp) (hI : I.WF) :
+    eval I (timesDistr t) = eval I t := Rewritings.times_equiv t hwf I hI
+
+/-- … and is well-formed of the same sort -/
+theorem times_wf (t : Term) (hwf : t.wf = true) :
+    (timesDistr t).wf = true ∧ (timesDistr t).typeOf = t.typeOf := (times_spec t hwf).1
 
 end PySMT.C10
